@@ -22,7 +22,7 @@ COMPONENTS = {"real": ["pyjelly serializers and parsers of both integrations inc
               "stub": ["reader for the option-off clause: simkit.refdec"]}
 ASSUMPTIONS = ["rdflib: bindings use labels/IRIs that do not collide with rdflib's default bindings and are compared "
                "as rdflib holds them on the source graph"]
-PROBES = ["bare_target_reads", "generator_with_option_on", "multi_group_declarations", "generic_runs", "rdflib_runs", "evictions_with_ns", "empty_prefix_label", "cross_integration_reads",
+PROBES = ["default_namespace_relabelled", "bare_target_reads", "generator_with_option_on", "multi_group_declarations", "generic_runs", "rdflib_runs", "evictions_with_ns", "empty_prefix_label", "cross_integration_reads",
           "physical_GRAPHS", "physical_QUADS"]
 SHRINK_LISTS = ["ops"]
 
@@ -38,6 +38,14 @@ def generate(rng, run, tier):
         # a graph created without rdflib's default bindings may use their labels for its own namespaces
         nss.append(rng.choice([("schema", "http://schema.org/"), ("dc", "http://example.org/dc#"),
                                ("geo", "http://example.org/geo/")]))
+    if integration == "rdflib" and rng.random() < 0.3:
+        # the project's own label for a namespace that rdflib's default bindings know under another one
+        # (bind() replaces the default on the source graph; a reader has to end up with the declared label too)
+        nss.append(rng.choice([("dct", "http://purl.org/dc/terms/"), ("sdo", "https://schema.org/"),
+                               ("w3time", "http://www.w3.org/2006/time#")]))
+        known_ns_relabelled = True
+    else:
+        known_ns_relabelled = False
     mp, mn, md = c01.fit_tables(rng, stmts, nss, sizes, physical)
     if md == 0 and W.has_datatypes(stmts):
         md = max(1, W.max_needs(stmts)[2])
@@ -51,6 +59,8 @@ def generate(rng, run, tier):
                             generalized=flags["generalized"], rdf_star=flags["rdf_star"], entry=entry, ns=True)
     if entry == "graph_serialize" and physical == "GRAPHS":
         cfg["pass_stream"] = True
+    if known_ns_relabelled:
+        cfg["known_ns_relabelled"] = True
     if bare:
         cfg["bare"] = True      # source (and, in clause 1b, target) graph without rdflib's default bindings
     if entry == "grouped_file":
@@ -91,6 +101,8 @@ def execute(plan, sim):
     stmts, nss = nodes.split_ops(plan["ops"])
     sim.count(integration + "_runs")
     sim.count("physical_" + cfg["physical"])
+    if cfg.get("known_ns_relabelled"):
+        sim.count("default_namespace_relabelled")
     if any(p == "" for p, _ in nss):
         sim.count("empty_prefix_label")
     key = (repr(sorted(cfg.items())), repr(nss), repr(stmts)) if len(nss) >= 2 and stmts else None
